@@ -234,6 +234,7 @@ func runDawg(w *tr.W, in dawgIn, prop string) {
 
 // runGob: b1 = GobEncode(d); d2 via GobDecode; d3 via encoding/gob; b2 = GobEncode(d2).
 func runGob(w *tr.W, d *dawg.Dawg, in dawgIn) {
+	same4 := true
 	var b1, b2, snap []byte
 	var e1, e2, e3, e4 error
 	d2 := new(dawg.Dawg)
@@ -248,9 +249,13 @@ func runGob(w *tr.W, d *dawg.Dawg, in dawgIn) {
 			return
 		}
 		snap = append([]byte{}, b1...) // the bytes as returned; b1 itself is kept and compared again after other Dawgs were encoded
-		e2 = d2.GobDecode(append([]byte{}, snap...))
+		in2 := append([]byte{}, snap...)
+		e2 = d2.GobDecode(in2)
 		if e2 != nil {
 			return
+		}
+		for i := range in2 { // the caller goes on to use its buffer: the decoded automaton must not refer to it
+			in2[i] = 0xAA
 		}
 		nodes2 = nodeTable(d2)
 		nw2 = d2.NumberOfWords()
@@ -269,6 +274,8 @@ func runGob(w *tr.W, d *dawg.Dawg, in dawgIn) {
 		e5 = d4.GobDecode(append([]byte{}, snap...))
 		if e5 == nil {
 			nodes4 = nodeTable(d4)
+			b4, e6 := d4.GobEncode() // the receiver was encoded before it was overwritten: nothing of the old automaton may survive
+			same4 = e6 == nil && bytes.Equal(b4, snap)
 		}
 		for _, p := range in.Probes {
 			id, ok := d2.Lookup(i2b(p))
@@ -286,7 +293,7 @@ func runGob(w *tr.W, d *dawg.Dawg, in dawgIn) {
 		bytesOut = []int{}
 	}
 	w.Emit(tr.E{"ev": "Gob", "res": res, "b1": bytesOut, "b1len": len(b1), "enc_err": errs(e1), "dec_err": errs(e2), "enc2_err": errs(e3), "gob_err": errs(e4),
-		"same_bytes": bytes.Equal(snap, b2), "b1_stable": bytes.Equal(b1, snap), "nodes2": nodes2, "nodes3": nodes3, "nwords2": nw2, "lookups2": lookups, "nodes1": nodeTable(d), "nodes4": nodes4, "dec4_err": errs(e5)})
+		"same_bytes": bytes.Equal(snap, b2), "b1_stable": bytes.Equal(b1, snap), "same4": same4, "nodes2": nodes2, "nodes3": nodes3, "nwords2": nw2, "lookups2": lookups, "nodes1": nodeTable(d), "nodes4": nodes4, "dec4_err": errs(e5)})
 }
 
 // ---- word set families ----
